@@ -230,8 +230,10 @@ pub fn predict_cli(src: &str, filename: &str) -> (Vec<u8>, i32, &'static str) {
 
 /// Statements that make a run end early or produce diagnostics. (text, what it plants)
 fn planted(r: &mut Rng) -> (String, &'static str) {
-    let k = r.below(17);
+    let k = r.below(18);
     match k {
+        // several diagnostics from one declaration: the order they are reported in is part of the output
+        17 => ("do zparams(aa, bb, cc, dd, aa, bb, cc, dd) start return 1 end".into(), "static"),
         0 => ("make zq1 get \"never closed".into(), "lexical"),
         1 => ("make zq2 get 3 @ 4".into(), "lexical"),
         2 => ("make get 3".into(), "syntax"),
@@ -526,6 +528,18 @@ impl C14 {
             "devstdin" => "/dev/stdin".to_string(),
             _ => path.clone(),
         };
+        if route == "stdin-dir" {
+            stage("cli");
+            res.count("cli_stdin_is_a_directory", 1);
+            let run = realos::run_naija_args(&bin, &["-"], realos::Feed::Path("/")).map_err(|m| ("harness".to_string(), m))?;
+            if !run.stdout.is_empty() || run.code == 0 {
+                return Err((
+                    "cli-exit-status".into(),
+                    format!("naija - with a directory as standard input: exit status {}, stdout {:?}; nothing can have been read, so nothing may run and the status must be non-zero", run.code, String::from_utf8_lossy(&run.stdout).chars().take(120).collect::<String>()),
+                ));
+            }
+            return Ok(());
+        }
         stage("predict");
         ROOMY_REFERENCE.with(|c| c.set(roomy(&case["program"]["plant"])));
         let (want_out, want_code, ending) = predict_cli(&src, &label);
@@ -644,6 +658,11 @@ impl Engine for C14 {
                 if route == "eval" {
                     route = "file";
                 }
+            }
+            // the script is to come from standard input, and standard input cannot be read (a directory):
+            // nothing may run and the status is non-zero
+            if (i / 3) % 64 == 9 {
+                return json!({"kind": "cli", "program": program, "route": "stdin-dir", "chunks": [1], "bin": "dev", "packets": false});
             }
             // systematic corner: every kind of degenerate source through every input route
             let ci = i / 3;
